@@ -264,7 +264,7 @@ pub fn work(ctx: &Ctx, rep: &mut Report) {
         .resizes(6);
     let cprof = Profile::general().resizes(0).length((1, 3), (1, 6));
     let pr = probes();
-    let n = ctx.scale(40_000, 800_000);
+    let n = ctx.scale(150_000, 1_500_000);
     for u in ctx.units(n) {
         let mut r = Rng::derive(ctx.seed, &[0xC11, 1, u as u64]);
         let mut h = gen::history(&mut r, &prof);
@@ -296,7 +296,7 @@ pub fn work(ctx: &Ctx, rep: &mut Report) {
         c11_history(&h, rep);
     }
     // (c) every cut of short histories (also inside ESC/CSI/DCS/OSC and parameter lists)
-    let m = ctx.scale(600, 20_000);
+    let m = ctx.scale(2000, 30_000);
     let sprof = Profile::general().boost(&[T_SGR, T_MODE, T_STR, T_MALFORMED, T_ALT, T_SAVE], 3).resizes(0).length((1, 1), (2, 5)).size(8, 4);
     for u in ctx.units(m) {
         let mut r = Rng::derive(ctx.seed, &[0xC11, 3, u as u64]);
